@@ -58,6 +58,9 @@ pub enum StageFault {
     NoTrustedKey,
     /// the caller trusts a key that did not sign the layout
     WrongTrustedKey,
+    /// the link directory handed to the verifier cannot be resolved (0 missing, 1 dangling symlink, 2 symlink to itself,
+    /// 3 a path through a regular file) while the working directory holds the complete, valid set of link files
+    UnresolvableLinkDir(u8),
 }
 
 #[derive(Clone, Debug, Serialize, Deserialize)]
@@ -193,7 +196,7 @@ pub fn build(spec: &Spec) -> World {
             links.push(LinkFile {
                 step: name.clone(),
                 filed_under: k.clone(),
-                name_field: None,
+                name_field: None, symlink_store: false,
                 body: Body::Link { link: LinkSpec { name: name.clone(), materials: prev.clone(), products: products.clone(), ..Default::default() }, sigs: vec![SigEntry::good(k)], tamper: None },
             });
         }
@@ -210,12 +213,12 @@ pub fn build(spec: &Spec) -> World {
     let mut w = World { layout: LayoutSpec { expires: 4_000_000_000, readme: String::new(), keys, steps, inspect }, sigs: vec![SigEntry::good(&owner())], tamper: None, links };
     // stage fault
     let n = w.layout.steps.len();
-    if n == 0 && !matches!(spec.fault, StageFault::None | StageFault::BadOwnerSignature | StageFault::Expired | StageFault::NoTrustedKey | StageFault::WrongTrustedKey) {
+    if n == 0 && !matches!(spec.fault, StageFault::None | StageFault::BadOwnerSignature | StageFault::Expired | StageFault::NoTrustedKey | StageFault::WrongTrustedKey | StageFault::UnresolvableLinkDir(_)) {
         return w;
     }
     let si = if n > 0 { spec.fault_step as usize % n } else { 0 };
     match spec.fault {
-        StageFault::None | StageFault::NoTrustedKey | StageFault::WrongTrustedKey => {}
+        StageFault::None | StageFault::NoTrustedKey | StageFault::WrongTrustedKey | StageFault::UnresolvableLinkDir(_) => {}
         StageFault::BadOwnerSignature => w.sigs[0].corrupt = Some(Corrupt::BitFlip(9)),
         StageFault::Expired => w.layout.expires = 1_000_000_000,
         StageFault::MissingLink => {
@@ -279,7 +282,7 @@ pub fn build(spec: &Spec) -> World {
             w.layout.steps[si].pubkeys = vec![k.clone()];
             w.links.retain(|f| f.step != name);
             let inner = World { layout: LayoutSpec { expires: 4_000_000_000, readme: "inner".into(), keys: vec![], steps: vec![], inspect: vec![] }, sigs: vec![], tamper: None, links: vec![] };
-            w.links.push(LinkFile { step: name, filed_under: k, name_field: None, body: Body::Sub { world: Box::new(inner), placement: Placement::Proper } });
+            w.links.push(LinkFile { step: name, filed_under: k, name_field: None, symlink_store: false, body: Body::Sub { world: Box::new(inner), placement: Placement::Proper } });
         }
     }
     w
@@ -334,7 +337,7 @@ impl Property for C08 {
         "Fault enumeration over the stage at which verification fails: layouts with 1-2 steps (real SHA-256 digests of a small content \
          table, one or two functionaries) and 1-2 inspections whose command is sh -c '<sentinel>; <ops>; exit k' with ops in {create file, \
          append, delete, mkdir+create, write stdout/stderr}, k in {0,1,2,126,127,255,random}, plus command-not-found and killed-by-signal; \
-         inspection rules over all seven kinds; one fault at a chosen stage in {bad owner signature, no trusted key passed by the caller, a trusted key that did not sign, expired, missing link, unauthorised \
+         inspection rules over all seven kinds; one fault at a chosen stage in {bad owner signature, no trusted key passed by the caller, a trusted key that did not sign, a link directory that cannot be resolved (missing, dangling or self-referential symlink, path through a file) while the working directory holds all link files, expired, missing link, unauthorised \
          link, badly signed link, unmet threshold, disagreeing links, failing step rule, failing sub-layout} or none; each case runs in a \
          fresh working directory. Oracles: (1) a fault at a pre-inspection stage (confirmed by the ground-truth model) => Err and no \
          sentinel file and no <inspection>.link file exists; (2) no fault and some inspection ends with a non-zero status / cannot run / \
@@ -355,7 +358,7 @@ impl Property for C08 {
             6 => Just(StageFault::None),
             1 => Just(StageFault::BadOwnerSignature), 1 => Just(StageFault::Expired), 1 => Just(StageFault::MissingLink), 1 => Just(StageFault::UnauthorizedLink),
             1 => Just(StageFault::BadlySignedLink), 1 => Just(StageFault::UnmetThreshold), 1 => Just(StageFault::DisagreeingLinks), 1 => Just(StageFault::FailingStepRule),
-            1 => Just(StageFault::FailingSubLayout), 1 => Just(StageFault::NoTrustedKey), 1 => Just(StageFault::WrongTrustedKey),
+            1 => Just(StageFault::FailingSubLayout), 1 => Just(StageFault::NoTrustedKey), 1 => Just(StageFault::WrongTrustedKey), 2 => (0u8..4).prop_map(StageFault::UnresolvableLinkDir),
         ];
         (
             proptest::collection::vec((proptest::collection::vec((any::<u8>(), any::<u8>()), 0..3), any::<bool>()), 1..3),
@@ -388,8 +391,37 @@ impl Property for C08 {
                 }
                 std::fs::write(&p, CONTENTS[*c as usize % CONTENTS.len()].replace('\n', "N")).unwrap();
             }
-            let info = write_world(w, &linkdir);
-            let j = judge(w, &info, caller, now, true);
+            // an unresolvable link directory: the links are in the working directory instead, where nobody may look
+            let unresolvable = match (&spec.fault, tag) {
+                (StageFault::UnresolvableLinkDir(k), "c08") => Some(*k),
+                _ => None,
+            };
+            let (info, linkdir) = match unresolvable {
+                None => (write_world(w, &linkdir), linkdir),
+                Some(k) => {
+                    let info = write_world(w, &cwd);
+                    let arg = match k % 4 {
+                        0 => root.join("no-such-directory"),
+                        1 => {
+                            let p = root.join("dangling");
+                            let _ = std::os::unix::fs::symlink(root.join("gone"), &p);
+                            p
+                        }
+                        2 => {
+                            let p = root.join("loop");
+                            let _ = std::os::unix::fs::symlink("loop", &p);
+                            p
+                        }
+                        _ => {
+                            let f = root.join("a-file");
+                            let _ = std::fs::write(&f, "x");
+                            f.join("links")
+                        }
+                    };
+                    (info, arg)
+                }
+            };
+            let j = judge(w, &info, caller, now, unresolvable.is_none());
             let before = snapshot(&cwd);
             let old = std::env::current_dir().unwrap();
             std::env::set_current_dir(&cwd).unwrap();
